@@ -338,6 +338,20 @@ pub fn run(ctx: &Ctx) -> Report {
         run_prop(&mut st, ctx.seed, "C15", shard as u64, cases / 16, &strat, |(a, b)| judge(a, b), |(a, b)| case_json(a, b));
         st
     });
+    // printers before and after ~127 distinct matchers: tables built from hash maps must not depend on iteration order
+    let mut stp = Stats::new();
+    for n in [126usize, 127, 128, 255] {
+        let mut e = E::and(E::A(Act::FPrint("first.out".into())), E::A(Act::FPrint("second.out".into())));
+        for i in 0..n {
+            e = E::or(e, E::T(Tst::Name(format!("pattern-{i}.*"))));
+        }
+        e = E::and(e, E::A(Act::FPrint("last.out".into())));
+        for _ in 0..4 {
+            let v = judge(&e, &E::A(Act::Print0));
+            stp.record(&v, stable_hash(&(n, "sandwich")), false, || json!({"kind": "sandwich", "matchers": n}));
+        }
+    }
+    total.merge(stp);
     // histories with the wall clock advancing (one sleep of at most ~1 s each, run in parallel)
     let per_thread = ctx.tier.pick(2usize, 12usize);
     let hist = run_shards(16, |shard| {
